@@ -224,7 +224,9 @@ fn stmt_effective_class(
     let stmt_facts = facts.stmt_effect(stmt);
     stmt_facts.direct_callees.iter().fold(stmt_facts.expr_class, |class, callee| {
         let summary = &summaries[callee.0 as usize];
-        if !summary.available {
+        // A callee that stores into a variable of an enclosing scope has an effect
+        // even when every expression it evaluates is pure.
+        if !summary.available || !summary.transitive_capture_writes.is_empty() {
             return ExprClass::Impure;
         }
 
